@@ -962,7 +962,7 @@ package service
 //@ func (*ssService).HandlePacket
 //@   props C18
 //@   params s conn
-//@   requires s != nil && s.ph != nil
+//@   requires s != nil && s.ph != nil && conn != nil
 
 // ---------------------------------------------------------------------------
 // Default destination policy wiring (C05)
